@@ -114,3 +114,54 @@ def base_check(ctx, pid, mod):
             ctx.ok("SELFTEST-BASE", "all-repaired-defects-detected", "%d expected reports present on the original tree" % len(want))
     finally:
         shutil.rmtree(tmp, ignore_errors=True)
+
+
+def negative_controls(ctx, pid, mod):
+    """Behaviour-preserving refactors stored under /verif/refactors: applied to a scratch copy, the rules of the
+    properties they touch must report nothing new (no false alarm on code where the property holds)."""
+    metas = sorted(glob.glob(os.path.join(VERIF, "refactors", "*", "meta.json")))
+    mine = []
+    for mp in metas:
+        try:
+            m = json.load(open(mp))
+        except Exception:
+            continue
+        if pid in m.get("properties", []):
+            mine.append((os.path.dirname(mp), m))
+    if not mine:
+        return
+    ctx.rule("SELFTEST-NEG", "on every stored behaviour-preserving refactor that touches this property's anchors, the rules report exactly what they report on the unchanged tree")
+    # reference: what the rules report on /repo itself
+    F0 = factsmod.Facts(factsmod.extract(repo=None, tier="quick"))
+    p0 = _Probe(pid, F0)
+    try:
+        mod.run(p0, F0, CallGraph(F0))
+    except Exception as e:
+        p0.violations.append("checker|crash|%s" % type(e).__name__)
+    ref = set(p0.violations)
+    for d, m in mine:
+        name = os.path.basename(d)
+        tmp = tempfile.mkdtemp(prefix="sgneg_", dir="/var/tmp")
+        copy = os.path.join(tmp, "repo")
+        try:
+            top = os.path.abspath(factsmod.REPO)
+            shutil.copytree(top, copy, ignore=lambda dd, names: [n for n in names if n == "target" or (os.path.abspath(dd) == top and n in SKIP)])
+            rc = subprocess.call(["patch", "-p1", "-s", "-i", os.path.join(d, "patch.diff")], cwd=copy, stdout=subprocess.DEVNULL, stderr=subprocess.DEVNULL)
+            if rc != 0:
+                ctx.note("negative control %s: the refactor no longer applies to the current tree (skipped)" % name)
+                continue
+            fdir = factsmod.extract(repo=copy, tier="quick")
+            F = factsmod.Facts(fdir)
+            probe = _Probe(pid, F)
+            try:
+                mod.run(probe, F, CallGraph(F))
+            except Exception as e:
+                probe.violations.append("checker|crash|%s" % type(e).__name__)
+            shutil.rmtree(fdir, ignore_errors=True)
+            extra = sorted(set(probe.violations) - ref)
+            if extra:
+                ctx.violation("SELFTEST-NEG", name + "|false-alarm", "refactors/%s/patch.diff" % name, "the rules report %s on a behaviour-preserving refactor (%s): the checker raises a false alarm" % (extra[:3], m.get("what", "")[:120]))
+            else:
+                ctx.ok("SELFTEST-NEG", name, "silent on: %s" % m.get("what", "")[:140])
+        finally:
+            shutil.rmtree(tmp, ignore_errors=True)
